@@ -8,7 +8,7 @@ RN3  SDD: unique_bdd interns only after the equal-children test and high-edge no
      unique_or sorts before every SddOr::new and negates all subs when normalising the sign;
      CompressionSddBuilder::canonicalize = base cases, compress (if enabled), base cases, unique_or.
 """
-from . import mir
+from . import mir, canon
 from .base import inst, OK, VIOLATION, UNDECIDED, strip
 from .facts import CheckerError
 from .mir import show
@@ -90,42 +90,70 @@ def rn1(prog):
     return out
 
 
+def _proj(t):
+    """tuple{a, b}.0 -> a, recursively"""
+    if not isinstance(t, tuple) or not t:
+        return t
+    if t[0] == "call":
+        return (t[0], t[1], tuple(_proj(a) for a in t[2])) + tuple(t[3:])
+    t = tuple(_proj(a) if isinstance(a, tuple) else a for a in t)
+    if t[0] == "field" and isinstance(t[1], tuple) and t[1] and t[1][0] == "agg" and t[1][1] in ("tuple", "array") and \
+            str(t[2]).isdigit() and int(t[2]) < len(t[1][4]):
+        return t[1][4][int(t[2])]
+    return t
+
+
 def rn2(prog):
+    """RobddBuilder::get_or_insert evaluated for each variant of the node's high child (canon.paths_under: branch
+    conditions on that variant are folded, joins resolved by the path): a complemented or false high child gives
+    Compl(intern(var, ¬low, ¬high)), anything else Reg(intern(var, low, high)) — whatever the control flow looks like."""
     out = []
     fn = prog.find1(name="get_or_insert", self_adt="builder::bdd::robdd::RobddBuilder", unit="rsdd-lib")
-    te = fn.terms
     node = ("param", 2)
     fld = lambda n: ("field", node, n, "repr::bdd::BddNode")
-    regs = [(bb, t, line) for bb, t, line in te.aggs if t[2] == "repr::bdd::BddPtr" and t[3] == "Reg"]
-    compls = [(bb, t, line) for bb, t, line in te.aggs if t[2] == "repr::bdd::BddPtr" and t[3] == "Compl"]
-    if len(regs) != 1 or len(compls) != 1:
-        raise CheckerError("RN2: expected one Reg and one Compl construction in get_or_insert")
-    bb, t, line = regs[0]
-    errs = []
-    poss = possible_variants(te, bb, fld("high"))
-    if "Compl" in poss:
-        errs.append("Reg(..) is reachable with a complemented high child")
-    if "PtrFalse" in poss:
-        errs.append("Reg(..) is reachable with a false high child")
-    src = strip(t[4][0])
-    if not (mir.is_call(src, "get_or_insert") and mir.is_call(strip(src[2][-1]), "new")
-            and [strip(a) for a in strip(src[2][-1])[2]] == [fld("var"), fld("low"), fld("high")]):
-        errs.append("Reg wraps %s, not the node (var, low, high) as given" % show(src)[:100])
-    out.append(inst("RN", "%s:RN2:Reg" % fn.npath, VIOLATION if errs else OK, fn, line,
-                    "; ".join(errs) if errs else "Reg only for a regular, non-false high edge"))
-    bb, t, line = compls[0]
-    src = strip(t[4][0])
-    errs = []
-    want = [fld("var"), ("call", "neg", fld("low")), ("call", "neg", fld("high"))]
-    ok = mir.is_call(src, "get_or_insert") and mir.is_call(strip(src[2][-1]), "new")
-    if ok:
+    res = {}
+    for v in ("PtrTrue", "PtrFalse", "Reg", "Compl"):
+        r = canon.paths_under(fn, fld("high"), v)
+        res[v] = None if r is None else [strip(_proj(x)) for x in r]
+
+    def shape(t):
+        """('Reg'|'Compl', plain|negated|other) of a returned pointer"""
+        if not (isinstance(t, tuple) and t and t[0] == "agg" and t[3] in ("Reg", "Compl")):
+            return None
+        src = strip(t[4][0])
+        if not (mir.is_call(src, "get_or_insert") and mir.is_call(strip(src[2][-1]), "new")):
+            return (t[3], "other")
         a = [strip(x) for x in strip(src[2][-1])[2]]
-        ok = (a[0] == fld("var") and mir.is_call(a[1], "neg") and strip(a[1][2][0]) == fld("low")
-              and mir.is_call(a[2], "neg") and strip(a[2][2][0]) == fld("high"))
-    if not ok:
-        errs.append("Compl must wrap the node (var, ¬low, ¬high); found %s" % show(src)[:120])
-    out.append(inst("RN", "%s:RN2:Compl" % fn.npath, VIOLATION if errs else OK, fn, line,
-                    "; ".join(errs) if errs else "Compl(node(var, ¬low, ¬high))"))
+        if a == [fld("var"), fld("low"), fld("high")]:
+            return (t[3], "plain")
+        if len(a) == 3 and a[0] == fld("var") and mir.is_call(a[1], "neg") and strip(a[1][2][0]) == fld("low") and \
+                mir.is_call(a[2], "neg") and strip(a[2][2][0]) == fld("high"):
+            return (t[3], "negated")
+        return (t[3], "other")
+
+    for want, variants, key in (("Reg", ("PtrTrue", "Reg"), "RN2:Reg"), ("Compl", ("PtrFalse", "Compl"), "RN2:Compl")):
+        errs, und = [], []
+        for v in variants:
+            if not res[v]:
+                und.append("no return value evaluated for a %s high child" % v)
+                continue
+            for t in res[v]:
+                sh = shape(t)
+                if sh is None:
+                    und.append("for a %s high child the function returns %s" % (v, show(t)[:60]))
+                elif want == "Reg" and sh[0] == "Compl":
+                    errs.append("a node with a %s high child is interned complemented" % v)
+                elif want == "Compl" and sh[0] == "Reg":
+                    errs.append("Reg(..) is reachable with a %s high child" % {"Compl": "complemented", "PtrFalse": "false"}[v])
+                elif want == "Reg" and sh[1] != "plain":
+                    errs.append("Reg wraps %s, not the node (var, low, high) as given" % show(strip(t[4][0]))[:100])
+                elif want == "Compl" and sh[1] != "negated":
+                    errs.append("Compl must wrap the node (var, ¬low, ¬high); found %s" % show(strip(t[4][0]))[:120])
+        verdict = VIOLATION if errs else (UNDECIDED if und else OK)
+        out.append(inst("RN", "%s:%s" % (fn.npath, key), verdict, fn, None,
+                        "; ".join(sorted(set(errs))[:3]) if errs else ("; ".join(und[:2]) if und else
+                        ("Reg(node as given) exactly for a regular, non-false high edge" if want == "Reg" else
+                         "Compl(node(var, ¬low, ¬high)) exactly for a complemented or false high edge"))))
     return out
 
 
